@@ -547,6 +547,22 @@ impl ErasedNode for Node {
             }
         });
         state.set_height(self.packed(), h.get());
+        if let Some(Kind::BindLhsChange { bind }) = self.kind() {
+            /* Nodes created by the previous run of this bind may have stayed necessary on their
+            own (observed directly) while the bind was not, and the bind's input may have grown
+            taller in the meantime. They must still sit above us, so that we run -- and
+            invalidate them -- before they get a chance to. */
+            let rhs_nodes: Vec<NodeRef> = {
+                let all = bind.all_nodes_created_on_rhs.borrow();
+                all.iter().filter_map(Weak::upgrade).collect()
+            };
+            for rnode in rhs_nodes {
+                if rnode.is_necessary() && rnode.height() <= self.height() {
+                    let mut ah_heap = state.adjust_heights_heap.borrow_mut();
+                    ah_heap.adjust_heights(&state.recompute_heap, self.packed(), rnode);
+                }
+            }
+        }
         debug_assert!(!self.is_in_recompute_heap());
         debug_assert!(self.is_necessary());
         if self.is_stale() {
